@@ -140,6 +140,10 @@ func VerifyProof(root, key *felt.Felt, proof *ProofNodeSet, hash crypto.HashFn) 
 			}
 			expected = felt.Felt(*cld)
 		case *trienode.ValueNode:
+			// a value is only a leaf once every bit of the key has been consumed
+			if keyBits.Len() != 0 {
+				return felt.Zero, fmt.Errorf("proof ends with a value node %d bits before the end of the key", keyBits.Len())
+			}
 			return felt.Felt(*cld), nil
 		case *trienode.EdgeNode, *trienode.BinaryNode:
 			// an embedded (non-collapsed) child: continue at its recomputed hash
